@@ -38,8 +38,13 @@ def lean_obligations(pid: str, theorems: List[str], tier: str, regen: bool = Tru
     if regen:
         from . import tables
         tables.regenerate()
-    rc, out = sh(["lake", "build", "KodaModel", "kvdriver"], LEAN)
+    # only the modules this property's theorems live in (and what they import) are built: a proof that no longer
+    # checks in another property's module - e.g. one about a table regenerated from the source - is that
+    # property's broken obligation, not this one's
+    mods = sorted(set(modules or ["KodaModel.Properties." + pid]))
+    rc, out = sh(["lake", "build"] + mods + ["kvdriver"], LEAN)
     res["build_ok"] = rc == 0
+    res["modules"] = mods
     if rc != 0:
         errs = [l for l in out.splitlines() if l.startswith("error:") or "✖" in l]
         res["problems"].append("lake build failed (a proof obligation no longer checks): " + " | ".join(errs)[:1500])
@@ -66,7 +71,7 @@ def lean_obligations(pid: str, theorems: List[str], tier: str, regen: bool = Tru
         return res
     audit = os.path.join(LEAN, ".lake", f"Audit_{pid}.lean")
     with open(audit, "w") as f:
-        f.write("import KodaModel\nopen Koda\n")
+        f.write("".join(f"import {m}\n" for m in mods) + "open Koda\n")
         for t in theorems:
             f.write(f"#print axioms {t}\n")
     rc, out = sh(["lake", "env", "lean", audit], LEAN)
@@ -90,7 +95,6 @@ def lean_obligations(pid: str, theorems: List[str], tier: str, regen: bool = Tru
             continue
         res["discharged"] += 1
     if tier == "thorough":
-        mods = sorted(set(modules or ["KodaModel.Properties." + pid]))
         rc, out = sh(["lake", "env", "leanchecker"] + mods, LEAN, timeout=3600)
         res["leanchecker"] = "ok" if rc == 0 else out[-500:]
         if rc != 0:
@@ -157,8 +161,9 @@ def decide_and_report(pid: str, tier: str, seed: int, t0: float, level: str, ob:
             exit_code = 1
     cov: Dict[str, Any] = {
         "obligations": ob["obligations"], "discharged": ob["discharged"],
-        "checker_cmd": "cd lean && lake build KodaModel && lake env lean .lake/Audit_%s.lean  (#print axioms per theorem%s)" % (
-            pid, "; lake env leanchecker KodaModel.Properties." + pid if tier == "thorough" else ""),
+        "checker_cmd": "cd lean && lake build %s kvdriver && lake env lean .lake/Audit_%s.lean  (#print axioms per theorem%s)" % (
+            " ".join(ob.get("modules", [])), pid,
+            "; lake env leanchecker " + " ".join(ob.get("modules", [])) if tier == "thorough" else ""),
         "trusted_base": spec.get("trusted_base", []) + [
             "Lean 4.33.0 kernel; axioms per theorem listed under 'axioms'",
             "hand-written Lean model tied to /repo by differential execution (harness/, Driver/) on this run",
